@@ -119,22 +119,28 @@ func (c *wsConnection) subscribe(ctx context.Context, id string, req *common.Req
 func (c *wsConnection) removeSub(id string) {
 	c.subsMu.Lock()
 	delete(c.subs, id)
-	isEmpty := len(c.subs) == 0
+	closeNow := false
+	if len(c.subs) == 0 {
+		if c.idleTimeout > 0 {
+			time.AfterFunc(c.idleTimeout, c.closeIfIdle)
+		} else {
+			// flip closed while subscribe() is locked out, so nobody can join a connection we are closing
+			closeNow = c.closed.CompareAndSwap(false, true)
+		}
+	}
 	c.subsMu.Unlock()
 
-	if isEmpty {
-		if c.idleTimeout > 0 {
-			time.AfterFunc(c.idleTimeout, func() {
-				c.subsMu.RLock()
-				stillEmpty := len(c.subs) == 0
-				c.subsMu.RUnlock()
-				if stillEmpty {
-					c.closeConn()
-				}
-			})
-		} else {
-			c.closeConn()
-		}
+	if closeNow {
+		c.teardown(common.ErrConnectionClosed)
+	}
+}
+
+func (c *wsConnection) closeIfIdle() {
+	c.subsMu.Lock()
+	won := len(c.subs) == 0 && c.closed.CompareAndSwap(false, true)
+	c.subsMu.Unlock()
+	if won {
+		c.teardown(common.ErrConnectionClosed)
 	}
 }
 
@@ -212,7 +218,10 @@ func (c *wsConnection) shutdown(err error) {
 	if !c.closed.CompareAndSwap(false, true) {
 		return
 	}
+	c.teardown(err)
+}
 
+func (c *wsConnection) teardown(err error) {
 	c.log.Debug("wsConnection.shutdown",
 		abstractlogger.Error(err),
 	)
